@@ -9,15 +9,42 @@ warnings.simplefilter('ignore')
 
 
 def run_truncate(case):
-    from tenpy.linalg.truncation import truncate
+    """truncate on one spectrum.  Optional case['form']: 'view' (S is a non-contiguous view), 'readonly' (S not writeable),
+    'config' (options handed over as tenpy Config instead of dict), 'twice' (second call with the SAME options object)."""
+    from tenpy.linalg.truncation import truncate, TruncationError
+    form = case.get('form') or {}
     S = np.array(case['S'], dtype=np.float64)
+    if form.get('view'):
+        big = np.full(2 * len(S) + 1, 0.123)
+        big[1::2] = S
+        S = big[1::2]
+    if form.get('readonly'):
+        S.flags.writeable = False
+    S_before = S.copy()
     opts = {k: v for k, v in case['opts'].items() if v != 'absent'}
+    o = dict(opts)
+    if form.get('config'):
+        from tenpy.tools.params import asConfig
+        o = asConfig(o, 'truncation')
     try:
-        mask, norm_new, err = truncate(S, dict(opts))
+        mask, norm_new, err = truncate(S, o)
     except Exception as e:  # error class is an observable
         return {'error': type(e).__name__}
-    return {'mask': [bool(b) for b in mask], 'norm_new': float(norm_new), 'eps': float(err.eps),
-            'ov': float(err.ov)}
+    out = {'mask': [bool(b) for b in mask], 'norm_new': float(norm_new), 'eps': float(err.eps),
+           'ov': float(err.ov)}
+    if form:
+        mask = np.asarray(mask)
+        out['api'] = {'S_unchanged': bool(np.array_equal(S, S_before)), 'mask_dtype': str(mask.dtype), 'mask_shape': list(mask.shape),
+                      'norm_matches': bool(float(norm_new) == float(np.linalg.norm(S_before[mask])) if mask.dtype == np.bool_ and mask.shape == S.shape else False),
+                      'err_type': isinstance(err, TruncationError)}
+        if form.get('twice'):
+            try:
+                m2, n2, e2 = truncate(S, o)
+                out['api']['second_equal'] = bool(np.array_equal(m2, mask) and float(n2) == float(norm_new) and float(e2.eps) == float(err.eps))
+            except Exception as e:
+                out['api']['second_equal'] = False
+                out['api']['second_error'] = type(e).__name__
+    return out
 
 
 def run_err(case):
@@ -29,6 +56,56 @@ def run_err(case):
     fn = TruncationError.from_norm(case['norm_new'], case['norm_old'] if case.get('norm_old') else 1.)
     return {'eps_sum': float(tot.eps), 'ov_prod': float(tot.ov), 'from_S_eps': float(fs.eps),
             'from_S_ov': float(fs.ov), 'from_norm_eps': float(fn.eps), 'from_norm_ov': float(fn.ov)}
+
+
+def run_err_api(case):
+    """every public name of TruncationError: copy / __add__ (operands, aliasing, result used again) / ov_err / repr /
+    from_norm and from_S with defaulted arguments / sum() / HDF5 round trip"""
+    from tenpy.linalg.truncation import TruncationError
+    a = TruncationError(case['a'][0], case['a'][1])
+    b = TruncationError(case['b'][0], case['b'][1])
+    d = TruncationError()
+    out = {'default': [d.eps, d.ov], 'repr_default': repr(d), 'repr_a': repr(a), 'ov_err_a': float(a.ov_err)}
+    c = a.copy()
+    out['copy'] = [float(c.eps), float(c.ov), c is a, type(c).__name__]
+    c.eps += 1.0
+    c.ov *= 0.5
+    out['a_after_copy_mutation'] = [float(a.eps), float(a.ov)]
+    s = a + b
+    out['sum'] = [float(s.eps), float(s.ov), s is a or s is b, type(s).__name__]
+    out['operands_after_add'] = [float(a.eps), float(a.ov), float(b.eps), float(b.ov)]
+    t = s + a.copy()                     # the result as an operand of a later operation
+    out['sum2'] = [float(t.eps), float(t.ov)]
+    out['s_after_second_add'] = [float(s.eps), float(s.ov)]
+    u = d + a                            # the neutral element on the left, as every accumulation loop starts
+    out['neutral'] = [float(u.eps), float(u.ov), float(d.eps), float(d.ov)]
+    acc = TruncationError()
+    for x in (a, b, a):                  # `trunc_err += err` as the callers write it
+        acc += x
+    out['iadd'] = [float(acc.eps), float(acc.ov)]
+    out['builtin_sum'] = [float(z) for z in (lambda r: (r.eps, r.ov))(sum([a, b, a], TruncationError()))]
+    out['operands_after_loops'] = [float(a.eps), float(a.ov), float(b.eps), float(b.ov)]
+    fn = TruncationError.from_norm(case['norm_new'])                     # norm_old defaulted (1.0)
+    out['from_norm_default'] = [float(fn.eps), float(fn.ov), type(fn).__name__]
+    fn2 = TruncationError.from_norm(case['norm_new'], case['norm_old'])
+    out['from_norm'] = [float(fn2.eps), float(fn2.ov)]
+    Sd = np.array(case['S_disc'], dtype=np.float64)
+    Sd0 = Sd.copy()
+    fs = TruncationError.from_S(Sd)                                       # norm_old defaulted (None)
+    out['from_S_default'] = [float(fs.eps), float(fs.ov), type(fs).__name__]
+    fs2 = TruncationError.from_S(Sd, case['norm_old'])
+    out['from_S'] = [float(fs2.eps), float(fs2.ov)]
+    out['S_disc_unchanged'] = bool(np.array_equal(Sd, Sd0))
+    try:
+        import h5py
+        from tenpy.tools import hdf5_io
+        with h5py.File('c15_err_api.h5', 'w', driver='core', backing_store=False) as f:
+            hdf5_io.save_to_hdf5(f, {'e': a, 'd': TruncationError()})
+            back = hdf5_io.load_from_hdf5(f)
+        out['hdf5'] = [float(back['e'].eps), float(back['e'].ov), type(back['e']).__name__, float(back['d'].eps), float(back['d'].ov)]
+    except ImportError:
+        out['hdf5'] = None
+    return out
 
 
 def random_npc_matrix(rng, spec):
@@ -109,10 +186,31 @@ def run_decomp(case):
     if case.get('inner_labels') is not None:
         kw['inner_labels'] = list(case['inner_labels'])
     inner = kw.get('inner_labels', ['vR', 'vL'])        # documented default
+    want_q = [None, None]
+    if case.get('qtotal_LR') is not None:
+        # documented (npc.svd): desired qtotal of U, VH; a single None is the unique charge with U.qtotal + VH.qtotal = theta.qtotal
+        qs = []
+        for side, q in enumerate(case['qtotal_LR']):
+            if q is None or case['spec']['mod'] is None:
+                qs.append(None)
+            else:
+                qs.append(a.chinfo.make_valid(np.array([q])))
+        if qs[0] is not None and qs[1] is not None:
+            qs[1] = a.chinfo.make_valid(a.qtotal - qs[0])
+        kw['qtotal_LR'] = qs
+        want_q = [None if q is None else [int(v) for v in q] for q in qs]
+        if qs[0] is None and qs[1] is None:
+            want_q = [None, [int(v) for v in a.qtotal]]          # "[None, None] is equivalent to [None, a.qtotal]"
+    else:
+        want_q = [None, [int(v) for v in a.qtotal]]
+    tp = dict(opts)
+    if case.get('config'):
+        from tenpy.tools.params import asConfig
+        tp = asConfig(tp, 'trunc_params')
     try:
         with warnings.catch_warnings(record=True) as wlist:
             warnings.simplefilter('always')
-            U, S, VH, err, renorm = svd_theta(a, dict(opts), **kw)
+            U, S, VH, err, renorm = svd_theta(a, tp, **kw)
     except Exception as e:
         return {'error': type(e).__name__ + ': ' + str(e)[:100]}
     # plain numpy reconstruction from the raw entries (independent of labels / charges / leg directions)
@@ -128,6 +226,7 @@ def run_decomp(case):
                   'want_U_labels': [labels_in[0], inner[0]], 'want_VH_labels': [inner[1], labels_in[1]],
                   'leg_problems': _leg_problems(U, VH, a),
                   'qtotal_ok': bool(np.array_equal(a.chinfo.make_valid(U.qtotal + VH.qtotal), a.qtotal)),
+                  'qtotal_LR': [[int(v) for v in U.qtotal], [int(v) for v in VH.qtotal]], 'want_qtotal_LR': want_q,
                   'dtypes': [str(U.dtype), str(VH.dtype), str(a.dtype), str(np.asarray(S).dtype)],
                   'theta_unchanged': bool(np.array_equal(a.to_ndarray(), dense) and list(a.get_leg_labels()) == labels_in),
                   'warnings': [str(w.message)[:60] for w in wlist if issubclass(w.category, UserWarning)][:3]}
@@ -141,17 +240,56 @@ def run_decomp(case):
         # density matrix rho = a a^dagger
         rho = npc.tensordot(a, a.conj(), axes=[1, 1])
         rd = rho.to_ndarray()
+        ekw = {}
+        uplo = case.get('UPLO')
+        rho_in = rho
+        if uplo is not None:
+            ekw['UPLO'] = uplo
+            if rho.legs[0].is_blocked():
+                # documented: only the lower ('L') / upper ('U') triangle is read -> overwrite the other one with garbage
+                # (blocked legs: every stored block is a diagonal block of the dense matrix)
+                rho_in = rho.copy(deep=True)
+                for blk in rho_in._data:
+                    g = 7.5 + rng.normal(size=blk.shape)
+                    blk += np.triu(g, 1) if uplo == 'L' else np.tril(g, -1)
+                out['uplo_garbage'] = True
+        if 'sort' in case:
+            ekw['sort'] = case['sort']
+        rho_in_dense = rho_in.to_ndarray()
+        etp = dict(opts)                     # a fresh options object (truncate stores the defaults it used in it)
+        if case.get('config'):
+            from tenpy.tools.params import asConfig
+            etp = asConfig(etp, 'trunc_params')
         try:
-            W, V, err2 = eigh_rho(rho, dict(opts))
+            with warnings.catch_warnings(record=True) as wlist2:
+                warnings.simplefilter('always')
+                W, V, err2 = eigh_rho(rho_in, etp, **ekw)
         except Exception as e:
             return {'error': 'eigh_rho ' + type(e).__name__ + ': ' + str(e)[:100]}
         Vd = V.to_ndarray()
         kept = Vd @ np.diag(W * (1. - err2.eps)) @ Vd.conj().T
         tr = np.trace(rd).real
+        # order of the returned eigenvalues inside each charge block of the new leg, as documented for `sort`
+        order_ok = True
+        leg = V.legs[1]
+        how = case.get('sort')
+        for b in range(leg.block_number):
+            w = np.asarray(W[leg.slices[b]:leg.slices[b + 1]])
+            key = -np.abs(w) if how == 'm>' else (np.abs(w) if how == 'm<' else (-w if how == '>' else w))
+            if np.any(np.diff(key) < -1e-13 * max(1., tr)):
+                order_ok = False
+        ev = np.linalg.eigvalsh(rd)
         out['eigh'] = {'eps': float(err2.eps), 'disc_weight': float(np.trace(rd - kept).real / tr),
                        'sumW_over_tr': float(np.sum(W) / tr),
                        'resid': float(np.linalg.norm(rd @ Vd - Vd @ np.diag(W * (1. - err2.eps))) / tr),
-                       'VdV': float(np.linalg.norm(Vd.conj().T @ Vd - np.eye(len(W))))}
+                       'VdV': float(np.linalg.norm(Vd.conj().T @ Vd - np.eye(len(W)))),
+                       'order_ok': order_ok, 'chi': int(len(W)), 'n': int(rd.shape[0]),
+                       'W_scaled': [float(x) for x in np.sort(W * (1. - err2.eps))[::-1][:50]],
+                       'dense_ev': [float(x) for x in ev[::-1][:50]],
+                       'labels': list(V.get_leg_labels()), 'want_labels': [labels_in[0], 'eig'],
+                       'rho_unchanged': bool(np.array_equal(rho_in.to_ndarray(), rho_in_dense)),
+                       'ov': float(err2.ov),
+                       'warnings': [str(w.message)[:60] for w in wlist2 if issubclass(w.category, UserWarning)][:3]}
     return out
 
 
@@ -244,6 +382,81 @@ def run_book_exact(case):
         truncation.truncate = orig
 
 
+def run_eig_svd(case):
+    """truncation._eig_based_svd called directly: every combination of need_U / need_Vd / trunc_params"""
+    import tenpy.linalg.np_conserved as npc
+    from tenpy.linalg import truncation
+    rng = np.random.default_rng(case['seed'])
+    a = random_npc_matrix(rng, case['spec'])
+    nrm = npc.norm(a)
+    if nrm == 0:
+        return {'skip': 'zero matrix'}
+    if case.get('normalize'):
+        a = a / nrm
+    dense = a.to_ndarray()
+    tp = None if case['opts'] is None else {k: v for k, v in case['opts'].items() if v != 'absent'}
+    kw = {'need_U': case['need_U'], 'need_Vd': case['need_Vd'], 'trunc_params': tp}
+    if case.get('inner_labels') is not None:
+        kw['inner_labels'] = list(case['inner_labels'])
+    if case.get('defaults'):
+        kw = {k: v for k, v in kw.items() if not (k == 'trunc_params' and v is None)}     # trunc_params defaulted
+    try:
+        U, S, Vd, err, ren = truncation._eig_based_svd(a, **kw)
+    except Exception as e:
+        return {'error': type(e).__name__, 'msg': str(e)[:80]}
+    sv = np.linalg.svd(dense, compute_uv=False)
+    out = {'S': [float(x) for x in S], 'renorm': float(ren), 'eps': float(err.eps), 'ov': float(err.ov),
+           'dense_sv': [float(x) for x in sv], 'norm_A': float(np.linalg.norm(dense)),
+           'U_none': U is None, 'Vd_none': Vd is None, 'A_unchanged': bool(np.array_equal(a.to_ndarray(), dense))}
+    Sr = np.asarray(S) * ren
+    if U is not None:
+        Ud = U.to_ndarray()
+        out['U_iso'] = float(np.linalg.norm(Ud.conj().T @ Ud - np.eye(Ud.shape[1])))
+        out['U_vec'] = float(np.max(np.abs(np.linalg.norm(dense.conj().T @ Ud, axis=0) - Sr))) if len(Sr) else 0.
+        out['U_labels'] = list(U.get_leg_labels())
+    if Vd is not None:
+        Vdd = Vd.to_ndarray()
+        out['Vd_iso'] = float(np.linalg.norm(Vdd @ Vdd.conj().T - np.eye(Vdd.shape[0])))
+        out['Vd_vec'] = float(np.max(np.abs(np.linalg.norm(dense @ Vdd.conj().T, axis=0) - Sr))) if len(Sr) else 0.
+        out['Vd_labels'] = list(Vd.get_leg_labels())
+    return out
+
+
+def run_callers(case):
+    """a caller that accumulates the returned errors: MPS.compress_svd (finite chain).  Pass-through wrapper of the
+    svd_theta name in tenpy.networks.mps records what every call reported."""
+    import c15_qr
+    from tenpy.networks import mps as mps_mod
+    M = c15_qr._model(case)
+    psi, rng = c15_qr._start_state(M, case)
+    tp = {k: v for k, v in case['trunc'].items() if v != 'absent'}
+    calls = []
+    orig = mps_mod.svd_theta
+
+    def spy(theta, trunc_par, *a, **kw):
+        res = orig(theta, trunc_par, *a, **kw)
+        calls.append([float(res[3].eps), float(res[3].ov), float(res[4]), int(len(res[1])), int(min(theta.shape))])
+        return res
+    psi.norm = case.get('norm0', 1.0)
+    norm0 = float(psi.norm)
+    full0 = psi.get_theta(0, psi.L).to_ndarray().reshape(-1) * norm0
+    mps_mod.svd_theta = spy
+    try:
+        if case.get('via_compress'):
+            err = psi.compress({'compression_method': 'SVD', 'trunc_params': tp})
+        else:
+            err = psi.compress_svd(tp)
+    except Exception as e:
+        return {'error': type(e).__name__ + ': ' + str(e)[:120]}
+    finally:
+        mps_mod.svd_theta = orig
+    full1 = psi.get_theta(0, psi.L).to_ndarray().reshape(-1) * float(psi.norm)
+    return {'calls': calls, 'eps': float(err.eps), 'ov': float(err.ov), 'norm0': norm0, 'norm': float(psi.norm),
+            'norm_err': float(np.max(psi.norm_test())), 'chi': [int(c) for c in psi.chi],
+            'dist2': float(np.linalg.norm(full1 - full0) ** 2 / np.linalg.norm(full0) ** 2),
+            'norm_full0': float(np.linalg.norm(full0))}
+
+
 def run_qr(case):
     import c15_qr
     return (c15_qr.run_qr_engine if case.get('engine') else c15_qr.run_qr_direct)(case)
@@ -265,8 +478,13 @@ def run_err_exact(case):
 def main():
     payload = json.load(open(sys.argv[1]))
     kind = payload['kind']
-    f = {'truncate': run_truncate, 'err': run_err, 'decomp': run_decomp, 'book': run_book,
+    f = {'truncate': run_truncate, 'err': run_err, 'err_api': run_err_api, 'eig_svd': run_eig_svd, 'callers': run_callers, 'decomp': run_decomp, 'book': run_book,
          'err_exact': run_err_exact, 'book_exact': run_book_exact, 'qr': run_qr}[kind]
+    cov = None
+    if payload.get('cov'):
+        # branch / call coverage of tenpy/linalg/truncation.py in this process (observation only)
+        import c15_cov
+        cov = c15_cov if c15_cov.install() else None
     res = []
     for c in payload['cases']:
         try:
@@ -274,6 +492,8 @@ def main():
         except Exception as e:
             import traceback
             res.append({'runner_error': traceback.format_exc()[-800:]})
+    if payload.get('cov'):
+        res = {'res': res, 'cov': cov.report() if cov else None}
     json.dump(res, open(sys.argv[2], 'w'))
 
 
